@@ -10,7 +10,8 @@ S(s) == Str(s)
 JI(n) == [j |-> "int", neg |-> n < 0, m |-> FromInt(n).m]
 JS(s) == [j |-> "str", v |-> s]
 Obj(a, s) == [j |-> "obj", v |-> << <<<<97>>, JI(a)>>, <<<<115>>, JS(s)>>, <<<<108>>, [j |-> "arr", v |-> <<JI(a), JI(a + 1)>>]>> >>]
-DocKinds == { Obj(5, <<120>>), Obj(0, <<121>>), [j |-> "obj", v |-> << <<<<98>>, JI(1)>> >>], NotJson, [j |-> "arr", v |-> <<JI(1)>>] }
+\* (the third document kind: a string holding U+2028, U+0085 and a non-ASCII letter)
+DocKinds == { Obj(5, <<120>>), Obj(0, <<121>>), Obj(7, <<120, 8232, 121, 133, 233>>), [j |-> "obj", v |-> << <<<<98>>, JI(1)>> >>], NotJson, [j |-> "arr", v |-> <<JI(1)>>] }
 Jq == Var("jq")
 A == Sel(Jq, <<97>>)
 Exprs == { Bin(">", A, Lit(I(1))), A, Bin("+", Sel(Jq, <<115>>), Lit(S(<<33>>))), Call("size", <<Sel(Jq, <<108>>)>>), Idx(Sel(Jq, <<108>>), Lit(I(1))),
